@@ -4,6 +4,7 @@ import (
 	"context"
 	"errors"
 	"fmt"
+	"io"
 
 	astits "github.com/asticode/go-astits"
 )
@@ -11,6 +12,8 @@ import (
 // C18: failures of the underlying reader or writer are always surfaced.
 //
 //	(1 scenario)             demux scenario with a failing reader (demux.go / RunDemux.v)
+//	(3 scenario cause)       the same, the reader's failure being an error that is not end of file but WRAPS io.EOF (cause 1) or
+//	                         io.ErrUnexpectedEOF (cause 2), the way layered readers report a broken transfer; same model as (1 ...)
 //	(2 period ops failAt oneShot)  muxer history with the failAt-th Write call failing (RunC18.v); oneShot is not part of
 //	                         what the model sees: the history is observed up to the failing call only
 type c18 struct{}
@@ -18,6 +21,30 @@ type c18 struct{}
 func init() { props["C18"] = c18{} }
 
 func (c18) Num() int { return 18 }
+
+// causeErr is a reader failure that is not end of file (package io: "Read must return EOF itself, not an error wrapping
+// EOF") but has an io sentinel in its Unwrap chain.
+type causeErr struct{ inner error }
+
+func (e *causeErr) Error() string { return "verif: injected fault: " + e.inner.Error() }
+func (e *causeErr) Unwrap() error { return e.inner }
+
+// withCause runs f with the injected fault replaced by one that wraps io.EOF (1) or io.ErrUnexpectedEOF (2); the harness
+// runs cases one after the other, so the package variable can be swapped for the duration of a case.
+func withCause(cause int64, f func()) {
+	if cause == 0 {
+		f()
+		return
+	}
+	old := errInjected
+	if cause == 1 {
+		errInjected = &causeErr{io.EOF}
+	} else {
+		errInjected = &causeErr{io.ErrUnexpectedEOF}
+	}
+	defer func() { errInjected = old }()
+	f()
+}
 
 type faultCall struct {
 	code     int64
@@ -101,6 +128,53 @@ func (c18) Gen(r *Rng, tier string, emit func(string, Tok)) {
 			}
 		}
 	}
+	// ---- failures that wrap io.EOF / io.ErrUnexpectedEOF: still not end of file ----
+	for k := 0; k < scale(tier, 2, 8); k++ {
+		m := genRefStream(r, streamOpts{PESPIDs: r.Range(1, 2), UnitsPerPID: r.Range(1, 2), MaxPES: 300, Tables: true})
+		data := m.bytes()
+		if len(data) > 188*6 && tier != "thorough" {
+			data = data[:188*6]
+		}
+		if len(data) > 188*12 {
+			data = data[:188*12]
+		}
+		for off := 0; off <= len(data); off += scale(tier, 9, 2) {
+			for kind := 0; kind < 3; kind++ {
+				cause := int64(1 + r.Intn(2))
+				opt := []int{188, 0}[r.Intn(2)]
+				emit("reader-fault-wrapped-eof", L(I(3), scenario{kind: kind, optSize: opt, fault: off, chunks: []int{r.Range(1, 250)}, data: data,
+					ops: []int{[]int{3, 4}[r.Intn(2)]}}.tok(), I(cause)))
+			}
+		}
+	}
+	// ---- calls after the failure: explicit NextPacket / NextData sequences that go on after the injected error
+	// (C18_demux_fault_persistent, C18_demux_pointwise); the replacing PacketsParser leaves data in the data buffer ----
+	for k := 0; k < scale(tier, 4, 20); k++ {
+		m := genRefStream(r, streamOpts{PESPIDs: r.Range(1, 2), UnitsPerPID: r.Range(1, 3), MaxPES: 300, Tables: true, SmallChunks: r.Bool()})
+		data := m.bytes()
+		if len(data) > 188*10 && tier != "thorough" {
+			data = data[:188*10]
+		}
+		for j := 0; j < scale(tier, 30, 120); j++ {
+			off := r.Intn(len(data) + 1)
+			if j%5 == 0 {
+				off = r.Intn(200) // inside the detection window
+				if off > len(data) {
+					off = len(data)
+				}
+			}
+			ops := make([]int, len(data)/188+6)
+			for i := range ops {
+				ops[i] = r.Intn(2)
+			}
+			prs := L(I(0))
+			if r.Bool() {
+				prs = L(I(4))
+			}
+			emit("reader-fault-after", L(I(1), scenario{kind: r.Intn(3), optSize: []int{188, 0}[r.Intn(2)], fault: off, chunks: []int{r.Range(1, 250)},
+				prsSpec: prs, data: data, ops: ops}.tok()))
+		}
+	}
 	// ---- writer side: every Write index as failure point, permanent and one-shot ----
 	histories := [][]muxOp{}
 	periods := []int{}
@@ -125,6 +199,38 @@ func (c18) Gen(r *Rng, tier string, emit func(string, Tok)) {
 			g.ops = append(g.ops, muxOp{kind: opPacket, p: p})
 			addHistory(r.Range(1, 3), g.ops)
 		}
+	}
+	// every optional part of the adaptation field goes through the underlying writer: PCR, OPCR, splice countdown,
+	// private data, and an extension with legal time window, piecewise rate and seamless splice (DTS_next_AU) -
+	// in the first packet of a WriteData and in a WritePacket
+	for _, size := range scaleList(tier, []int{3*184 - 100}, []int{10, 184, 3*184 - 100}) {
+		fullAF := func() *astits.PacketAdaptationField {
+			return &astits.PacketAdaptationField{
+				HasPCR: true, PCR: &astits.ClockReference{Base: 5, Extension: 7}, RandomAccessIndicator: true,
+				HasOPCR: true, OPCR: &astits.ClockReference{Base: 1 << 32, Extension: 299},
+				HasSplicingCountdown: true, SpliceCountdown: 3,
+				HasTransportPrivateData: true, TransportPrivateData: r.Bytes(3), TransportPrivateDataLength: 3,
+				HasAdaptationExtensionField: true,
+				AdaptationExtensionField: &astits.PacketAdaptationExtensionField{
+					HasLegalTimeWindow: true, LegalTimeWindowIsValid: true, LegalTimeWindowOffset: 0x1234,
+					HasPiecewiseRate: true, PiecewiseRate: 0x2abcde,
+					HasSeamlessSplice: true, SpliceType: 5, DTSNextAccessUnit: &astits.ClockReference{Base: 1<<33 - 2},
+				},
+			}
+		}
+		g := newMuxGen(r, tier)
+		g.addExplicit(0)
+		pid := g.pids[0]
+		g.ops = append(g.ops, muxOp{kind: opSetPCR, pid: pid})
+		d := &astits.MuxerData{PID: pid, AdaptationField: fullAF(), PES: &astits.PESData{Data: r.Bytes(size), Header: &astits.PESHeader{StreamID: 0xe0,
+			OptionalHeader: &astits.PESOptionalHeader{MarkerBits: 2, PTSDTSIndicator: astits.PTSDTSIndicatorBothPresent,
+				PTS: &astits.ClockReference{Base: 90000}, DTS: &astits.ClockReference{Base: 86400}}}}}
+		g.ops = append(g.ops, muxOp{kind: opData, d: d})
+		g.ops = append(g.ops, muxOp{kind: opPacket, p: &astits.Packet{
+			Header:          astits.PacketHeader{PID: 0x321, ContinuityCounter: 9, HasAdaptationField: true, HasPayload: true, PayloadUnitStartIndicator: true},
+			AdaptationField: fullAF(), Payload: r.Bytes(size % 100)}})
+		g.tables()
+		addHistory(r.Range(1, 3), g.ops)
 	}
 	nCrafted := len(histories)
 	for k := 0; k < scale(tier, 3, 30); k++ {
@@ -192,6 +298,10 @@ func (c18) Run(c Tok) Tok {
 	switch c.At(0).Int() {
 	case 1:
 		return runScenario(scenarioOf(c.At(1))).observation()
+	case 3:
+		var obs Tok
+		withCause(c.At(2).Int(), func() { obs = runScenario(scenarioOf(c.At(1))).observation() })
+		return obs
 	case 2:
 		var ops []muxOp
 		for _, t := range c.At(2).L {
@@ -209,12 +319,51 @@ func (c18) Run(c Tok) Tok {
 
 func (c18) Oracle(c Tok, obs Tok) string {
 	switch c.At(0).Int() {
+	case 3:
+		w := ""
+		withCause(c.At(2).Int(), func() { w = c18{}.Oracle(L(I(1), c.At(1)), obs) })
+		return w
 	case 1:
 		s := scenarioOf(c.At(1))
 		run := runScenario(s)
 		clean := s
 		clean.fault = -1
 		ref := runScenario(clean)
+		single := len(s.ops) > 0
+		for _, op := range s.ops {
+			if op != 0 && op != 1 {
+				single = false
+			}
+		}
+		if single {
+			// one call per op in both runs: compare call by call, beyond the failing call too
+			if len(run.errs) != len(ref.errs) || len(run.errs) != len(s.ops) {
+				return "the failing and the fault-free run made different numbers of calls"
+			}
+			failed, failedInData := false, false
+			for i, e := range run.errs {
+				res := run.results[i].At(0)
+				switch {
+				case res.At(0).Int() == 2:
+					return "the demuxer panicked on a failing reader"
+				case e != nil && errors.Is(e, errInjected):
+					if !failed && s.ops[i] == 1 {
+						failedInData = true
+					}
+					failed = true
+				case e != nil && errors.Is(e, astits.ErrNoMorePackets) && s.fault >= 0 && s.fault <= len(s.data):
+					return fmt.Sprintf("call %d returned ErrNoMorePackets although the reader fails at offset %d <= %d", i, s.fault, len(s.data))
+				default:
+					if ref.results[i].At(0).String() != res.String() {
+						return fmt.Sprintf("call %d of the failing run returned neither the fault-free result nor the injected error", i)
+					}
+					if failed && (s.ops[i] == 0 || failedInData || e != nil) {
+						return fmt.Sprintf("call %d did not return the reader's failure again after an earlier call had reported it", i)
+					}
+				}
+			}
+			return ""
+		}
 		sawFault := false
 		for i, e := range run.errs {
 			res := run.results[i].At(0)
